@@ -344,7 +344,7 @@ type pureResult struct {
 
 // pureCall symbolically evaluates fn (ghost / spec code) on all paths and merges the results.
 func (m *Machine) pureCall(st *State, fn *ssa.Function, args []Value, fvals []Value) []Value {
-	sub := &State{pure: true, opaque: st.opaque, evBase: st.evBase, ghostCells: st.ghostCells, guardSnaps: st.guardSnaps, guardVals: st.guardVals, recDone: st.recDone, heap: cloneHeap(st.heap), locks: st.locks, chanQ: map[int][]chanQuery{}, chanVer: st.chanVer, definable: st.definable, defs: st.defs}
+	sub := &State{pure: true, opaque: st.opaque, evBase: st.evBase, ghostCells: st.ghostCells, guardSnaps: st.guardSnaps, guardVals: st.guardVals, closerFresh: st.closerFresh, closerSpawned: st.closerSpawned, reads: st.reads, recDone: st.recDone, heap: cloneHeap(st.heap), locks: st.locks, chanQ: map[int][]chanQuery{}, chanVer: st.chanVer, definable: st.definable, defs: st.defs}
 	sub.pc = append([]*Term{}, st.pc...)
 	sub.events = st.events
 	sub.fresh = make([]*freshObj, len(st.fresh))
